@@ -80,6 +80,20 @@ let state_tokens (s : session) : String.t list =
   @ [ "ids"; string_of_int (List.length s.s_ids) ] @ List.map token_of_str s.s_ids
 
 let fuel = ref (nat_of_int 4000)
+let resources : (str * str) list ref = ref []
+
+let load_resources path =
+  let ic = open_in path in
+  (try
+     while true do
+       let line = input_line ic in
+       match String.index_opt line '\t' with
+       | Some i ->
+           let name = String.sub line 0 i and body = String.sub line (i + 1) (String.length line - i - 1) in
+           resources := (str_of_ascii name, str_of_token ("s" ^ body)) :: !resources
+       | None -> ()
+     done
+   with End_of_file -> close_in ic)
 
 let find_regex (name : String.t) : cre =
   let key = str_of_ascii name in
@@ -149,9 +163,32 @@ let run_case (line : String.t) : String.t =
       let s = go s0 (calls rest) in
       if want_state = "1" then Buffer.add_string buf ("S " ^ String.concat " " (state_tokens s));
       Buffer.contents buf
+  | "M" :: argc :: rest ->
+      (* CLI case: argc, args..., stdin, rimurc (n or string), nfiles, (path content)* *)
+      let n = int_of_string argc in
+      let rec take k l = if k = 0 then ([], l) else match l with x :: t -> let (a, b) = take (k - 1) t in (x :: a, b) | [] -> failwith "bad M case" in
+      let (args, rest) = take n rest in
+      (match rest with
+       | stdin_t :: rimurc_t :: nfiles :: frest ->
+           let rec files k l = if k = 0 then [] else match l with p :: c :: t -> (str_of_token p, str_of_token c) :: files (k - 1) t | _ -> failwith "bad M files" in
+           let env = { env_stdin = str_of_token stdin_t;
+                       env_files = files (int_of_string nfiles) frest;
+                       env_rimurc = (if rimurc_t = "n" then None else Some (str_of_token rimurc_t));
+                       env_resources = !resources } in
+           (match rimuc_main !fuel (List.map str_of_token args) env with
+            | CDone r ->
+                String.concat " " (["C"; (if r.r_exit1 then "1" else "0"); token_of_str r.r_stdout;
+                                    string_of_int (List.length r.r_stderr)] @ List.map token_of_str r.r_stderr
+                                   @ (match r.r_outfile with None -> ["n"] | Some (p, c) -> [token_of_str p; token_of_str c]))
+            | CRaise e -> "X " ^ exn_name e
+            | CFuel -> "F")
+       | _ -> "ERR bad M case")
   | _ -> "ERR bad case"
 
 let () =
+  (match Sys.getenv_opt "RIMU_RESOURCES" with
+   | Some p when Sys.file_exists p -> load_resources p
+   | _ -> ());
   (match Sys.getenv_opt "RIMU_FUEL" with
    | Some f -> fuel := nat_of_int (int_of_string f)
    | None -> ());
